@@ -8,10 +8,12 @@
 EXTENDS Resolve, Json, IOUtils
 
 Marker(x) == Obj(<<Prop(x, Prim("num"))>>)
+\* the contested name may be a reference name (@n): its declarations are reference declarations
+DeclOf(n, rhs) == IF n = "@n" THEN LetRef(n, rhs) ELSE Let(n, rhs)
 
 \* g imports h under the same qualifier name the main module uses, and has a qualified use of its own
-ModG(n) == <<UseAs("h", "q"), Let(n, Marker("u")), Let("t", Marker("t")), Let("w", QVar("q", n))>>
-ModH(n) == <<Let(n, Marker("q"))>>
+ModG(n) == <<UseAs("h", "q"), DeclOf(n, Marker("u")), Let("t", Marker("t")), Let("w", QVar("q", n))>>
+ModH(n) == <<DeclOf(n, Marker("q"))>>
 
 \* the statements that contain the use of the contested name n
 UseSite(site, n, P, R) ==
@@ -23,24 +25,27 @@ UseSite(site, n, P, R) ==
     [] site = "qual"  -> <<Let("u", QVar("q", n))>>
     \* a use AFTER a rec expression has ended: the rec binder (possibly of the same name) is out of scope again
     [] site = "afterrec" -> <<Let("u", Obj(<<Prop("t", Rec(R, Obj(<<Prop("k", Arr(Var(R)))>>))), Prop("v", Var(n))>>))>>
+    \* a rec expression directly in a res statement (no enclosing declaration)
+    [] site = "recres" -> <<Let("u", Marker("t")),
+                            Res(Rel(Uri(<<Seg("r")>>), <<Xfer("get", Cnt(<<>>, <<Rec(R, Obj(<<Prop("k", Arr(Var(n))), Prop("s", Arr(Var(R)))>>))>>))>>))>>
     [] site = "afterrecfn" -> <<Decl("f", <<P>>, Obj(<<Prop("t", Rec(R, Obj(<<Prop("k", Arr(Var(R)))>>))), Prop("v", Var(n))>>)),
                                 Let("u", App(Var("f"), <<Marker("p")>>))>>
 
 \* UL: the use statements come first, or last (after the declarations: the order of statements is immaterial)
 MainOfL(n, U, Q, D, P, R, site, UL) ==
   LET uses == (IF U THEN <<Use("g")>> ELSE <<>>) \o (IF Q THEN <<UseAs("h", "q")>> ELSE <<>>)
-      rest == (IF D = 1 THEN <<Let(n, Marker("d"))>> ELSE <<>>)
+      rest == (IF D = 1 THEN <<DeclOf(n, Marker("d"))>> ELSE <<>>)
               \o UseSite(site, n, P, R)
-              \o (IF D = 2 THEN <<Let(n, Marker("d"))>> ELSE <<>>)
+              \o (IF D = 2 THEN <<DeclOf(n, Marker("d"))>> ELSE <<>>)
               \o <<Res(Rel(Uri(<<Seg("")>>), <<Xfer("get", Cnt(<<>>, <<Var("u")>>))>>))>>
   IN IF UL = "last" THEN rest \o uses ELSE uses \o rest
 
 MainOf(n, U, Q, D, P, R, site) ==
   (IF U THEN <<Use("g")>> ELSE <<>>)
   \o (IF Q THEN <<UseAs("h", "q")>> ELSE <<>>)
-  \o (IF D = 1 THEN <<Let(n, Marker("d"))>> ELSE <<>>)
+  \o (IF D = 1 THEN <<DeclOf(n, Marker("d"))>> ELSE <<>>)
   \o UseSite(site, n, P, R)
-  \o (IF D = 2 THEN <<Let(n, Marker("d"))>> ELSE <<>>)
+  \o (IF D = 2 THEN <<DeclOf(n, Marker("d"))>> ELSE <<>>)
   \o <<Res(Rel(Uri(<<Seg("")>>), <<Xfer("get", Cnt(<<>>, <<Var("u")>>))>>))>>
 
 ProgOf(n, U, Q, D, P, R, site) ==
@@ -51,7 +56,7 @@ ProgOf(n, U, Q, D, P, R, site) ==
                 [] m = "h" -> ModH(n)]]
 
 Names == {"n", "concat"}
-Sites == {"top", "fn", "rec", "recfn", "qual", "afterrec", "afterrecfn"}
+Sites == {"top", "fn", "rec", "recfn", "qual", "afterrec", "afterrecfn", "recres"}
 
 ProgOfL(n, U, Q, D, P, R, site) ==
   [main |-> "m1",
@@ -63,6 +68,9 @@ ProgOfL(n, U, Q, D, P, R, site) ==
 ScopesFamily ==
   {ProgOf(n, U, Q, D, P, R, site) :
      n \in Names, U \in BOOLEAN, Q \in BOOLEAN, D \in 0..2, P \in {"n", "p"}, R \in {"n", "z"}, site \in Sites}
+  \* the contested name spelled like the qualifier of the qualified import, and a reference name (@n)
+  \cup {ProgOf(n, U, Q, D, P, R, site) :
+     n \in {"q", "@n"}, U \in BOOLEAN, Q \in BOOLEAN, D \in 0..2, P \in {"n", "p"}, R \in {"n", "z"}, site \in {"top", "fn", "qual"}}
   \cup {ProgOfL("n", U, Q, D, P, R, site) :
      U \in BOOLEAN, Q \in BOOLEAN, D \in 0..2, P \in {"n", "p"}, R \in {"n", "z"}, site \in {"top", "fn", "qual", "afterrecfn"}}
 
